@@ -245,7 +245,7 @@ Proof. exact added_ids_distinct. Qed.
 Print Assumptions C20_key_ids_pairwise_distinct.
 
 (* ... and on the C11 model of keyset.Manager for every operation history of
-   one manager (Add, AddNewKeyFromParameters, AddKey, SetPrimary, Enable,
+   one manager (Add, AddNewKeyFrom<parameters>, AddKey, SetPrimary, Enable,
    Disable, Delete, Handle), any id tape. *)
 Theorem C20_manager_ids_pairwise_distinct :
   forall ops s s' rs,
